@@ -166,6 +166,231 @@ fn apply_single<H: Hasher>(root: H::Digest, i: usize, path: &[H::Digest], m: &SM
     (root, i, p)
 }
 
+// ================================================================================================ error sites + named malformed classes
+/// The places where get_root / into_paths can leave.  `predict` below re-implements ONLY the order of the guards on
+/// the shape of an opening (counts, lengths, depth, positions; no digest is looked at): it names the first guard that
+/// fires and the error value it must produce.  It is a third description of that control flow (beside /repo and the
+/// Coq model) and serves as the harness-side counter of reached error sites and as an oracle of the falsifier.
+#[derive(Clone, Copy, PartialEq, Eq, PartialOrd, Ord, Debug)]
+enum Site {
+    Accept, NoIdx, TooMany, LeafCount, DepthPow, OutOfRange, Dup, VecCount, FirstEmptyRight, FirstEmptyLeft, LevelShort, Unconsumed, NoRoot,
+    // defensive branches; Props/C10.v C10_dead_branches_*: no input reaches them
+    DeadLeafIdx, DeadNoPair, DeadSibling, DeadNode, DeadPathLeaf, DeadPathSib,
+}
+const LIVE_SITES: [Site; 12] = [Site::NoIdx, Site::TooMany, Site::LeafCount, Site::DepthPow, Site::OutOfRange, Site::Dup, Site::VecCount,
+    Site::FirstEmptyRight, Site::FirstEmptyLeft, Site::LevelShort, Site::Unconsumed, Site::NoRoot];
+impl Site {
+    /// (name, lines of crypto/src/merkle/proofs.rs [mod.rs where said] in get_root, in into_paths)
+    fn info(self) -> (&'static str, &'static str, &'static str) {
+        match self {
+            Site::Accept => ("accept", "257-ok", "413-416-ok"),
+            Site::NoIdx => ("no-positions", "126", "273"),
+            Site::TooMany => ("too-many-positions", "129", "276"),
+            Site::LeafCount => ("leaf-count", "132", "279"),
+            Site::DepthPow => ("depth>=64", "mod.rs:386", "mod.rs:386"),
+            Site::OutOfRange => ("position-out-of-range", "mod.rs:392", "mod.rs:392"),
+            Site::Dup => ("position-duplicated", "mod.rs:397", "mod.rs:397"),
+            Site::VecCount => ("vector-count", "142", "298"),
+            Site::FirstEmptyRight => ("first-level-right-sibling-missing", "167", "323"),
+            Site::FirstEmptyLeft => ("first-level-left-sibling-missing", "176", "332"),
+            Site::LevelShort => ("upper-level-sibling-missing", "221", "378"),
+            Site::Unconsumed => ("nodes-not-consumed", "254", "410"),
+            Site::NoRoot => ("no-root(depth-0)", "257", "-"),
+            Site::DeadLeafIdx => ("DEAD-leaf-index", "154,160,182", "310,316,338"),
+            Site::DeadNoPair => ("DEAD-no-position-in-pair", "186", "342"),
+            Site::DeadSibling => ("DEAD-merged-sibling-unknown", "215", "373"),
+            Site::DeadNode => ("DEAD-node-unknown", "230", "387"),
+            Site::DeadPathLeaf => ("DEAD-path-leaf-unknown", "-", "520"),
+            Site::DeadPathSib => ("DEAD-path-sibling-unknown", "-", "528"),
+        }
+    }
+    fn name(self) -> &'static str { self.info().0 }
+}
+
+/// First guard that fires for an opening of this shape, and the canonical result string ("ok" or `er(..)`).
+fn predict(into_paths: bool, nleaves: usize, nodes: &[usize], depth: u8, idx: &[usize]) -> (Site, String) {
+    use std::collections::BTreeSet;
+    let inv = |s: Site| (s, "err:InvalidProof".to_string());
+    if idx.is_empty() { return (Site::NoIdx, "err:TooFewLeafIndexes".into()); }
+    if idx.len() > 255 { return (Site::TooMany, format!("err:TooManyLeafIndexes(ff,{:x})", idx.len())); }
+    if idx.len() != nleaves { return inv(Site::LeafCount); }
+    if depth >= 64 { return inv(Site::DepthPow); }
+    let nl = 1usize << depth;
+    let mut map: BTreeMap<usize, usize> = BTreeMap::new();
+    for (i, &x) in idx.iter().enumerate() {
+        map.insert(x, i);
+        if x >= nl { return (Site::OutOfRange, format!("err:LeafIndexOutOfBounds({:x},{:x})", nl, x)); }
+    }
+    if map.len() != idx.len() { return (Site::Dup, "err:DuplicateLeafIndex".into()); }
+    let norm: Vec<usize> = idx.iter().map(|&x| x - (x & 1)).collect::<BTreeSet<_>>().into_iter().collect();
+    if norm.len() != nodes.len() { return inv(Site::VecCount); }
+    let mut v: BTreeSet<usize> = BTreeSet::new();
+    let mut ptm: BTreeSet<usize> = idx.iter().map(|&x| x + nl).collect();
+    let mut ptrs: Vec<usize> = Vec::new();
+    let mut next: Vec<usize> = Vec::new();
+    for (i, &e) in norm.iter().enumerate() {
+        match (map.get(&e), map.get(&(e + 1))) {
+            (Some(&a), Some(&b)) => { if nleaves <= a || nleaves <= b { return inv(Site::DeadLeafIdx); } ptrs.push(0); }
+            (Some(&a), None) => { if nleaves <= a { return inv(Site::DeadLeafIdx); } if nodes[i] == 0 { return inv(Site::FirstEmptyRight); } ptrs.push(1); }
+            (None, Some(&b)) => { if nodes[i] == 0 { return inv(Site::FirstEmptyLeft); } if nleaves <= b { return inv(Site::DeadLeafIdx); } ptrs.push(1); }
+            (None, None) => { if nodes[i] == 0 { return inv(Site::FirstEmptyLeft); } return inv(Site::DeadNoPair); }
+        }
+        let parent = (nl + e) >> 1;
+        v.insert(parent); next.push(parent);
+        ptm.insert(nl + e); ptm.insert((nl + e) ^ 1); ptm.insert(parent);
+    }
+    for _ in 1..depth {
+        let cur = std::mem::take(&mut next);
+        let mut i = 0;
+        while i < cur.len() {
+            let node = cur[i];
+            let sib = node ^ 1;
+            if i + 1 < cur.len() && cur[i + 1] == sib {
+                if !v.contains(&sib) { return inv(Site::DeadSibling); }
+                i += 1;
+            } else {
+                if nodes[i] <= ptrs[i] { return inv(Site::LevelShort); }
+                ptrs[i] += 1;
+            }
+            if !v.contains(&node) { return inv(Site::DeadNode); }
+            ptm.insert(sib);
+            let parent = node >> 1;
+            v.insert(parent); next.push(parent); ptm.insert(parent);
+            i += 1;
+        }
+    }
+    if ptrs.iter().zip(nodes).any(|(p, n)| p != n) { return inv(Site::Unconsumed); }
+    if !into_paths {
+        return if v.contains(&1) { (Site::Accept, "ok".into()) } else { inv(Site::NoRoot) };
+    }
+    for &x in idx {
+        let mut k = x + nl;
+        if !ptm.contains(&k) { return inv(Site::DeadPathLeaf); }
+        while k > 1 { if !ptm.contains(&(k ^ 1)) { return inv(Site::DeadPathSib); } k >>= 1; }
+    }
+    (Site::Accept, "ok".into())
+}
+fn predict_o<H: Hasher>(into_paths: bool, o: &Opening<H>) -> (Site, String) {
+    let lens: Vec<usize> = o.nodes.iter().map(|g| g.len()).collect();
+    predict(into_paths, o.leaves.len(), &lens, o.depth, &o.idx)
+}
+fn head(s: &str) -> &str { if s.starts_with("ok") { "ok" } else { s } }
+
+/// A named way of damaging the SHAPE of an honest opening.  `aims`: the defensive branches of proofs.rs the class is
+/// built to approach (where there is one); `sites`: the guards that may answer instead (checked per case).
+struct Class { name: &'static str, aims: &'static str, sites: &'static [Site] }
+use Site::*;
+const CLASSES: &[Class] = &[
+    Class { name: "leaves-fewer", aims: "154,160,182/310,316,338", sites: &[LeafCount] },
+    Class { name: "leaves-more", aims: "", sites: &[LeafCount] },
+    Class { name: "positions-fewer", aims: "154,160,182/310,316,338", sites: &[LeafCount] },
+    Class { name: "positions-more", aims: "", sites: &[LeafCount] },
+    Class { name: "pair-dropped", aims: "186/342", sites: &[VecCount] },
+    Class { name: "sibling-dropped-even", aims: "186/342", sites: &[FirstEmptyLeft, LevelShort] },
+    Class { name: "sibling-dropped-odd", aims: "186/342", sites: &[FirstEmptyRight, LevelShort] },
+    Class { name: "first-node-missing-even", aims: "", sites: &[FirstEmptyRight] },
+    Class { name: "first-node-missing-odd", aims: "", sites: &[FirstEmptyLeft] },
+    Class { name: "vec-missing", aims: "", sites: &[VecCount] },
+    Class { name: "vec-extra-empty", aims: "", sites: &[VecCount] },
+    Class { name: "vec-extra-full", aims: "", sites: &[VecCount] },
+    Class { name: "level-node-missing", aims: "520,528", sites: &[LevelShort] },
+    Class { name: "node-at-known-sibling", aims: "", sites: &[Unconsumed] },
+    Class { name: "node-surplus", aims: "", sites: &[Unconsumed] },
+    Class { name: "node-moved", aims: "215,230/373,387", sites: &[LevelShort, Unconsumed, FirstEmptyRight, FirstEmptyLeft] },
+    Class { name: "depth-smaller", aims: "215,230/373,387", sites: &[OutOfRange, Unconsumed] },
+    Class { name: "depth-larger", aims: "520,528", sites: &[LevelShort] },
+    Class { name: "depth-0", aims: "520,528", sites: &[OutOfRange, Unconsumed, NoRoot, Accept] },
+    Class { name: "depth-64plus", aims: "", sites: &[DepthPow] },
+    Class { name: "position-out-of-range", aims: "154,160,182/310,316,338", sites: &[OutOfRange] },
+    Class { name: "position-duplicated", aims: "", sites: &[Dup] },
+    Class { name: "positions-none", aims: "", sites: &[NoIdx] },
+    Class { name: "positions-256plus", aims: "", sites: &[TooMany] },
+    Class { name: "position-to-sibling", aims: "186/342", sites: &[Accept] },
+    Class { name: "position-to-other-pair", aims: "215,230/373,387", sites: &[Accept, VecCount, FirstEmptyRight, FirstEmptyLeft, LevelShort, Unconsumed] },
+];
+
+/// (even member, even queried at, odd queried at) for every sibling pair that contains a queried position, ascending
+fn pairs(idx: &[usize]) -> Vec<(usize, Option<usize>, Option<usize>)> {
+    let mut m: BTreeMap<usize, (Option<usize>, Option<usize>)> = BTreeMap::new();
+    for (k, &x) in idx.iter().enumerate() { let e = m.entry(x & !1).or_insert((None, None)); if x & 1 == 0 { e.0 = Some(k) } else { e.1 = Some(k) } }
+    m.into_iter().map(|(e, (a, b))| (e, a, b)).collect()
+}
+
+/// Applies the class to an honest opening of distinct in-range positions (None: not applicable to this opening).
+fn malform<H: Hasher>(o: &Opening<H>, class: &str, r: &mut Rng) -> Option<Opening<H>> {
+    let mut q = o.dup();
+    let zero = H::Digest::default();
+    let k = o.idx.len();
+    let ps = pairs(&o.idx);
+    let mut queried = vec![false; o.n];
+    for &i in &o.idx { queried[i] = true; }
+    let unq: Vec<usize> = (0..o.n).filter(|&x| !queried[x]).collect();
+    let pick_pair = |r: &mut Rng, f: &dyn Fn(&(usize, Option<usize>, Option<usize>)) -> bool| -> Option<usize> {
+        let c: Vec<usize> = (0..ps.len()).filter(|&j| f(&ps[j])).collect();
+        if c.is_empty() { None } else { Some(*r.pick(&c)) }
+    };
+    match class {
+        "leaves-fewer" => { let cut = 1 + r.below(k as u64) as usize; q.leaves.truncate(k - cut); }
+        "leaves-more" => { for _ in 0..1 + r.below(3) { q.leaves.push(fresh::<H>(r, &zero)); } }
+        "positions-fewer" => { if k < 2 { return None; } q.idx.remove(r.below(k as u64) as usize); }
+        "positions-more" => { if unq.is_empty() || k >= 255 { return None; } q.idx.push(*r.pick(&unq)); }
+        "pair-dropped" => {
+            if k < 2 { return None; }
+            let j = pick_pair(r, &|p| p.1.is_some() != p.2.is_some())?;
+            let at = ps[j].1.or(ps[j].2).unwrap();
+            q.idx.remove(at); q.leaves.remove(at);
+        }
+        "sibling-dropped-even" | "sibling-dropped-odd" => {
+            let j = pick_pair(r, &|p| p.1.is_some() && p.2.is_some())?;
+            let at = if class.ends_with("even") { ps[j].1 } else { ps[j].2 }.unwrap();
+            q.idx.remove(at); q.leaves.remove(at);
+        }
+        "first-node-missing-even" => { let j = pick_pair(r, &|p| p.1.is_some() && p.2.is_none())?; q.nodes[j].clear(); }
+        "first-node-missing-odd" => { let j = pick_pair(r, &|p| p.1.is_none() && p.2.is_some())?; q.nodes[j].clear(); }
+        "vec-missing" => { q.nodes.remove(r.below(q.nodes.len() as u64) as usize); }
+        "vec-extra-empty" => { let at = r.below(q.nodes.len() as u64 + 1) as usize; q.nodes.insert(at, vec![]); }
+        "vec-extra-full" => { let at = r.below(q.nodes.len() as u64 + 1) as usize; let g = o.nodes[r.below(o.nodes.len() as u64) as usize].clone(); q.nodes.insert(at, if g.is_empty() { vec![fresh::<H>(r, &zero)] } else { g }); }
+        "level-node-missing" => {
+            let c: Vec<usize> = (0..ps.len()).filter(|&j| q.nodes[j].len() >= if ps[j].1.is_some() && ps[j].2.is_some() { 1 } else { 2 }).collect();
+            if c.is_empty() { return None; }
+            q.nodes[*r.pick(&c)].pop();
+        }
+        "node-at-known-sibling" => { let j = pick_pair(r, &|p| p.1.is_some() && p.2.is_some())?; q.nodes[j].insert(0, fresh::<H>(r, &zero)); }
+        "node-surplus" => { let j = r.below(q.nodes.len() as u64) as usize; q.nodes[j].push(fresh::<H>(r, &zero)); }
+        "node-moved" => {
+            if q.nodes.len() < 2 { return None; }
+            let c: Vec<usize> = (0..q.nodes.len()).filter(|&j| !q.nodes[j].is_empty()).collect();
+            if c.is_empty() { return None; }
+            let a = *r.pick(&c);
+            let mut b = r.below(q.nodes.len() as u64 - 1) as usize; if b >= a { b += 1; }
+            let x = q.nodes[a].pop().unwrap(); q.nodes[b].push(x);
+        }
+        "depth-smaller" => { if o.depth < 2 { return None; } q.depth = 1 + r.below(o.depth as u64 - 1) as u8; }
+        "depth-larger" => { if o.depth >= 63 { return None; } q.depth = if r.chance(1, 2) { o.depth + 1 } else { o.depth + 1 + r.below(63 - o.depth as u64) as u8 }; }
+        "depth-0" => { q.depth = 0; }
+        "depth-64plus" => { q.depth = *r.pick(&[64u8, 65, 100, 128, 200, 255]); }
+        "position-out-of-range" => {
+            let p = r.below(k as u64) as usize;
+            q.idx[p] = match r.below(6) { 0 => o.n, 1 => o.n + 1, 2 => 2 * o.n - 1, 3 => 1 << 63, 4 => usize::MAX, _ => o.n + r.below(1 << 40) as usize };
+        }
+        "position-duplicated" => { if k < 2 { return None; } let a = r.below(k as u64) as usize; let mut b = r.below(k as u64 - 1) as usize; if b >= a { b += 1; } q.idx[a] = o.idx[b]; }
+        "positions-none" => { q.idx.clear(); }
+        "positions-256plus" => { let m = 256 + r.below(3) as usize * 50; q.idx = (0..m).map(|i| if o.n >= m { i } else { i % o.n }).collect(); if r.chance(1, 2) { q.leaves = (0..m).map(|_| zero).collect(); } }
+        "position-to-sibling" => { let j = pick_pair(r, &|p| p.1.is_some() != p.2.is_some())?; let at = ps[j].1.or(ps[j].2).unwrap(); q.idx[at] ^= 1; }
+        "position-to-other-pair" => {
+            let c: Vec<usize> = unq.iter().cloned().filter(|&x| !queried[x ^ 1]).collect();
+            if c.is_empty() { return None; }
+            let p = r.below(k as u64) as usize; q.idx[p] = *r.pick(&c);
+        }
+        _ => panic!("unknown malformed class {}", class),
+    }
+    Some(q)
+}
+
+/// Bookkeeping of stream F / falsifier stage 6: per class and per (function, site) counters.
+#[derive(Default)]
+struct SiteStats { class_n: BTreeMap<&'static str, usize>, class_sites: BTreeMap<(&'static str, &'static str), usize>, fn_sites: BTreeMap<(&'static str, &'static str), usize>, bad: usize }
+
 // ================================================================================================ random index lists
 fn shuffle<T>(r: &mut Rng, v: &mut [T]) {
     for i in (1..v.len()).rev() { let j = r.below(i as u64 + 1) as usize; v.swap(i, j); }
@@ -203,7 +428,7 @@ fn gen_list(r: &mut Rng, n: usize) -> Vec<usize> {
 }
 
 // ================================================================================================ corr
-struct Out { w: std::io::BufWriter<std::io::Stdout>, n: usize }
+struct Out { w: std::io::BufWriter<std::io::Stdout>, n: usize, deser_panics: usize }
 impl Out {
     fn put(&mut self, case: &str, res: &str) { writeln!(self.w, "{} => {}", case, res).unwrap(); self.n += 1; }
 }
@@ -264,7 +489,7 @@ fn c_ser(o: &mut Out, nodes: &[Vec<TD>]) {
     let s = match catch(AUS(|| p.serialize_nodes())) { Ok(b) => format!("ok {}", hex_bytes(&b)), Err(_) => "panic".into() };
     o.put(&format!("ser {}", lld(nodes)), &s);
 }
-fn c_deser(o: &mut Out, bytes: &[u8], leaves: &[TD], depth: u8) {
+fn c_deser(o: &mut Out, bytes: &[u8], leaves: &[TD], depth: u8) -> Option<(Vec<Vec<TD>>, usize)> {
     let r = catch(AUS(|| {
         let mut rd = SliceReader::new(bytes);
         BatchMerkleProof::<Toy>::deserialize(&mut rd, leaves.to_vec(), depth).map(|p| {
@@ -273,8 +498,10 @@ fn c_deser(o: &mut Out, bytes: &[u8], leaves: &[TD], depth: u8) {
             (p, unread)
         })
     }));
-    let s = match r { Err(_) => "panic".into(), Ok(Err(_)) => "err".into(), Ok(Ok((p, u))) => format!("ok {} {}", lld(&p.nodes), u) };
+    let s = match &r { Err(_) => "panic".into(), Ok(Err(_)) => "err".into(), Ok(Ok((p, u))) => format!("ok {} {}", lld(&p.nodes), u) };
     o.put(&format!("deser {} {} {:x}", hex_bytes(bytes), ld(leaves), depth), &s);
+    if r.is_err() { o.deser_panics += 1; }
+    r.ok().and_then(|x| x.ok()).map(|(p, u)| (p.nodes, u))
 }
 
 /// The five operations on one index list; `ops` selects a subset (bit0 prove_batch .. bit4 from_paths).
@@ -325,9 +552,97 @@ fn mutate_from_paths(o: &mut Out, r: &mut Rng, paths: &[Vec<TD>], idx: &[usize])
     let mut i2 = idx.to_vec(); i2[p] ^= 1; c_from_paths(o, paths, &i2);
 }
 
+impl SiteStats {
+    fn bad(&mut self, what: &str, class: &str, case: &str, expected: &str, actual: &str) {
+        self.bad += 1;
+        if self.bad <= 5 {
+            eprintln!("F-bad {{\"what\":{},\"class\":{},\"input\":{},\"expected\":{},\"actual\":{}}}", jstr(what), jstr(class), jstr(case), jstr(expected), jstr(actual));
+        }
+    }
+    /// one function applied to one malformed opening: impl result `got` against the predicted (site, result)
+    fn note(&mut self, c: &'static Class, f: &'static str, case: &str, pred: &(Site, String), got: &str) {
+        let (site, want) = (pred.0, pred.1.as_str());
+        *self.class_sites.entry((c.name, site.name())).or_insert(0) += 1;
+        *self.fn_sites.entry((f, site.name())).or_insert(0) += 1;
+        if got == "panic" { self.bad("malformed-class-panic", c.name, case, want, got); }
+        else if head(got) != want { self.bad("site-predictor-disagrees", c.name, case, &format!("{} at {}", want, site.name()), got); }
+        else if !c.sites.contains(&site) { self.bad("malformed-class-unexpected-site", c.name, case, &format!("{:?}", c.sites), site.name()); }
+        else if site >= Site::DeadLeafIdx { self.bad("dead-branch-predicted", c.name, case, "a live guard", site.name()); }
+    }
+    fn summary(&self) {
+        for c in CLASSES {
+            let sites: Vec<String> = self.class_sites.iter().filter(|(k, _)| k.0 == c.name).map(|(k, v)| format!("{}={}", k.1, v)).collect();
+            eprintln!("F-class {} n={} aims={} sites={}", c.name, self.class_n.get(c.name).unwrap_or(&0), if c.aims.is_empty() { "-" } else { c.aims }, sites.join(","));
+        }
+        for k in DESER_CLASSES { eprintln!("F-class {} n={} aims=- sites=-", k, self.class_n.get(k).unwrap_or(&0)); }
+        for f in ["get_root", "into_paths"] {
+            for s in LIVE_SITES.iter().chain([Site::Accept, Site::DeadLeafIdx, Site::DeadNoPair, Site::DeadSibling, Site::DeadNode, Site::DeadPathLeaf, Site::DeadPathSib].iter()) {
+                let (name, lg, lp) = s.info();
+                let lines = if f == "get_root" { lg } else { lp };
+                if lines == "-" { continue; }
+                eprintln!("F-site {} {} lines={} n={}", f, name, lines, self.fn_sites.get(&(f, name)).unwrap_or(&0));
+            }
+        }
+        eprintln!("F-bad-total {}", self.bad);
+    }
+}
+
+/// get_root, into_paths and verify_batch on one malformed opening: three correspondence lines + the site bookkeeping
+fn f_case(o: &mut Out, st: &mut SiteStats, c: &'static Class, x: &Opening<Toy>) {
+    *st.class_n.entry(c.name).or_insert(0) += 1;
+    let case = bp_case(x);
+    let g = show(&x.get_root(), |r| format!("ok {}", hd(r)));
+    o.put(&format!("get_root {}", case), &g);
+    let pg = predict_o(false, x);
+    st.note(c, "get_root", &case, &pg, &g);
+    let p = show(&x.into_paths(), |ps| format!("ok {}", lld(ps)));
+    o.put(&format!("into_paths {}", case), &p);
+    st.note(c, "into_paths", &case, &predict_o(true, x), &p);
+    let v = show(&x.verify_batch(), |_| "ok".into());
+    o.put(&format!("verify_batch {} {}", hd(&x.root), case), &v);
+    let fine = if pg.0 == Site::Accept { v == "ok" || v == "err:InvalidProof" } else { v == pg.1 };
+    if !fine { st.bad("verify_batch-differs-from-get_root", c.name, &case, &pg.1, &v); }
+}
+
+/// (de)serialisation with inconsistent counts; whatever deserialize lets through goes on to get_root / into_paths
+fn f_deser(o: &mut Out, st: &mut SiteStats, r: &mut Rng, q: &Opening<Toy>) {
+    let bytes = q.proof().serialize_nodes();
+    let tally = |st: &mut SiteStats, name: &'static str| { *st.class_n.entry(name).or_insert(0) += 1; };
+    let starts: Vec<usize> = { let mut v = Vec::new(); let mut at = 1; for g in &q.nodes { v.push(at); at += 1 + 8 * g.len(); } v };
+    let go = |o: &mut Out, st: &mut SiteStats, name: &'static str, g: &[u8], leaves: &[TD], depth: u8, want: &str| {
+        tally(st, name);
+        let before = o.deser_panics;
+        let res = c_deser(o, g, leaves, depth);
+        let got = if o.deser_panics > before { "panic" } else if let Some((_, u)) = &res { if *u > 0 { "ok-unread" } else { "ok" } } else { "err" };
+        if got == "panic" || (want != "any" && got != want) { st.bad("deser-class-outcome", name, &hex_bytes(g), want, got); }
+        if let Some((nodes, _)) = res {
+            let mut x = q.dup(); x.nodes = nodes; x.leaves = leaves.to_vec(); x.depth = depth;
+            for (f, res) in [("get_root", show(&x.get_root(), |r| format!("ok {}", hd(r)))), ("into_paths", show(&x.into_paths(), |ps| format!("ok {}", lld(ps))))] {
+                o.put(&format!("{} {}", f, bp_case(&x)), &res);
+                let pred = predict_o(f == "into_paths", &x);
+                if res == "panic" || head(&res) != pred.1 { st.bad("site-predictor-disagrees", name, &bp_case(&x), &pred.1, &res); }
+            }
+        }
+    };
+    let mut g = bytes.clone(); g[0] = g[0].saturating_add(1 + r.below(3) as u8); go(o, st, "deser-vector-count-more", &g, &q.leaves, q.depth, "err");
+    let mut g = bytes.clone(); g[0] -= 1; go(o, st, "deser-vector-count-fewer", &g, &q.leaves, q.depth, "ok-unread");
+    let j = r.below(starts.len() as u64) as usize;
+    let mut g = bytes.clone(); g[starts[j]] += 1 + r.below(2) as u8; go(o, st, "deser-digest-count-more", &g, &q.leaves, q.depth, "any");
+    let c: Vec<usize> = starts.iter().cloned().filter(|&s| bytes[s] > 0).collect();
+    if !c.is_empty() { let mut g = bytes.clone(); g[*r.pick(&c)] -= 1; go(o, st, "deser-digest-count-fewer", &g, &q.leaves, q.depth, "any"); }
+    let cut = r.below(bytes.len() as u64) as usize; go(o, st, "deser-truncated", &bytes[..cut], &q.leaves, q.depth, "err");
+    go(o, st, "deser-no-leaves", &bytes, &[], q.depth, "err");
+    let many = 256 + r.below(2) as usize;
+    go(o, st, "deser-256-leaves", &bytes, &rand_leaves(r, many), q.depth, "err");
+    go(o, st, "deser-depth-0", &bytes, &q.leaves, 0, "err");
+    go(o, st, "deser-honest", &bytes, &q.leaves, q.depth, "ok");
+}
+const DESER_CLASSES: [&str; 9] = ["deser-vector-count-more", "deser-vector-count-fewer", "deser-digest-count-more", "deser-digest-count-fewer",
+    "deser-truncated", "deser-no-leaves", "deser-256-leaves", "deser-depth-0", "deser-honest"];
+
 fn corr(seed: u64, n: usize, thorough: bool) {
     let r = &mut Rng::new(seed);
-    let o = &mut Out { w: std::io::BufWriter::with_capacity(1 << 20, std::io::stdout()), n: 0 };
+    let o = &mut Out { w: std::io::BufWriter::with_capacity(1 << 20, std::io::stdout()), n: 0, deser_panics: 0 };
     let mut sizes = Vec::new();
     let mark = |o: &Out, sizes: &mut Vec<usize>| { let prev: usize = sizes.iter().sum(); sizes.push(o.n - prev); };
 
@@ -497,12 +812,44 @@ fn corr(seed: u64, n: usize, thorough: bool) {
     c_ser(o, &[rand_leaves(r, 2), rand_leaves(r, 256), vec![]]);
     let mut v: Vec<Vec<TD>> = vec![vec![]; 255]; v.push(rand_leaves(r, 1)); c_ser(o, &v);
     mark(o, &mut sizes);
+
+    // ---------------------------------------------------------------- F: named malformed classes (shape only)
+    let st = &mut SiteStats::default();
+    let mut pool: Vec<Opening<Toy>> = Vec::new();
+    for nl in [2usize, 4, 8, 16, 32, 64, 256] {
+        let leaves = rand_leaves(r, nl);
+        let t = MerkleTree::<Toy>::new(leaves).unwrap();
+        let mut lists: Vec<Vec<usize>> = (0..if nl == 256 { 2 } else { 6 }).map(|_| gen_list(r, nl)).collect();
+        if nl == 256 { for l in lists.iter_mut() { l.truncate(24); } }
+        if nl <= 4 { lists.extend([vec![0], vec![1], vec![0, 1], vec![1, 0], vec![nl - 1], vec![nl - 2, nl - 1]]); }
+        if nl >= 4 { lists.extend([vec![0, 1, nl - 1], vec![1, 2], vec![2, 0, 3, nl - 2], (0..nl.min(12)).rev().collect()]); }
+        for idx in lists {
+            if let Ok(p) = t.prove_batch(&idx) { pool.push(Opening::of(*t.root(), nl, &idx, &p)); }
+        }
+    }
+    let per_class = if thorough { 120 } else { 30 };
+    // two-leaf trees opened at position 0: with the depth byte set to 0 the only way to the last error of get_root (line 257)
+    let pool2: Vec<Opening<Toy>> = (0..per_class).map(|_| {
+        let t = MerkleTree::<Toy>::new(rand_leaves(r, 2)).unwrap();
+        Opening::of(*t.root(), 2, &[0], &t.prove_batch(&[0]).unwrap())
+    }).collect();
+    for c in CLASSES {
+        let (mut done, mut tries) = (0, 0);
+        while done < per_class && tries < 6 * per_class {
+            let q = if c.name == "depth-0" && tries % 2 == 0 { &pool2[tries / 2 % pool2.len()] } else { &pool[(tries * 7 + done) % pool.len()] };
+            tries += 1;
+            if let Some(x) = malform(q, c.name, r) { f_case(o, st, c, &x); done += 1; }
+        }
+    }
+    for (j, q) in pool.iter().enumerate() { if j % 2 == 0 || thorough { f_deser(o, st, r, q); } }
+    mark(o, &mut sizes);
     o.w.flush().unwrap();
-    eprintln!("stream sizes: A={} B={} C={} D={} E={}", sizes[0], sizes[1], sizes[2], sizes[3], sizes[4]);
+    eprintln!("stream sizes: A={} B={} C={} D={} E={} F={}", sizes[0], sizes[1], sizes[2], sizes[3], sizes[4], sizes[5]);
+    st.summary();
 }
 
 // ================================================================================================ falsifier
-struct Fz { evals: usize, fails: usize, suppressed: usize, seen: BTreeMap<String, usize> }
+struct Fz { evals: usize, fails: usize, suppressed: usize, seen: BTreeMap<String, usize>, sites: BTreeMap<(&'static str, &'static str), usize>, classes: BTreeMap<&'static str, usize> }
 impl Fz {
     fn fail(&mut self, what: &str, hasher: &str, input: impl FnOnce() -> String, expected: &str, actual: String) {
         let c = self.seen.entry(format!("{}/{}", what, hasher)).or_insert(0);
@@ -528,6 +875,16 @@ fn fold_path<H: Hasher>(mut i: usize, path: &[H::Digest]) -> Option<H::Digest> {
 }
 fn short<T: std::fmt::Debug>(r: &MRes<T>) -> String {
     match r { Err(m) => format!("panic: {}", m), Ok(Err(e)) => er(e), Ok(Ok(v)) => { let mut s = format!("Ok({:?})", v); s.truncate(200); s } }
+}
+
+/// Oracle (shape only, no digest): the guard `predict` names must be the one that answers.
+fn pred_check<H: Hasher, T>(fz: &mut Fz, name: &str, f: &'static str, x: &Opening<H>, got: &MRes<T>, ctx: &dyn Fn() -> String) -> Site {
+    let (site, want) = predict_o(f == "into_paths", x);
+    let g = match got { Err(_) => "panic".to_string(), Ok(Err(e)) => er(e), Ok(Ok(_)) => "ok".into() };
+    *fz.sites.entry((f, site.name())).or_insert(0) += 1;
+    if g != want { fz.fail("error-site-oracle", name, || format!("{} {}", f, ctx()), &format!("{} at guard {}", want, site.name()), g); }
+    if site >= Site::DeadLeafIdx { fz.fail("dead-branch-predicted", name, || format!("{} {}", f, ctx()), "a live guard", site.name().into()); }
+    site
 }
 
 fn falsify_hasher<H: Hasher>(name: &str, real: bool, budget: usize, r: &mut Rng, fz: &mut Fz) {
@@ -599,6 +956,7 @@ fn falsify_hasher<H: Hasher>(name: &str, real: bool, budget: usize, r: &mut Rng,
                 let what = match m { Mut::AddNode(_) => "surplus-node-accepted", Mut::LeavesExt => "surplus-leaf-accepted", _ => "mutated-batch-accepted" };
                 let oob = matches!(m, Mut::IdxTo(_, v) if v >= n) || matches!(m, Mut::AppendIdx(v) if v >= n);
                 let g = x.get_root();
+                pred_check(fz, name, "get_root", &x, &g, &inp);
                 match &g {
                     Err(_) => fz.fail("panic-get_root", name, inp, "Err", short(&g)),
                     Ok(Ok(_)) if oob => fz.fail("out-of-range-index-accepted", name, inp, "Err", short(&g)),
@@ -612,11 +970,44 @@ fn falsify_hasher<H: Hasher>(name: &str, real: bool, budget: usize, r: &mut Rng,
                     _ => {}
                 }
                 let g = x.into_paths();
+                pred_check(fz, name, "into_paths", &x, &g, &inp);
                 match &g {
                     Err(_) => fz.fail("panic-into_paths", name, inp, "Err", short(&g)),
                     Ok(Ok(_)) if oob => fz.fail("out-of-range-index-accepted", name, inp, "into_paths: Err", short(&g)),
                     Ok(Ok(ps)) if real && ps.len() == x.idx.len() && ps.iter().zip(&x.idx).all(|(p, &i)| fold_path::<H>(i, p) == Some(root)) =>
                         fz.fail(what, name, inp, "into_paths: Err or paths that do not resolve to the root", short(&g)),
+                    _ => {}
+                }
+            }
+            // 4b. named malformed classes (shape damage): the predicted guard answers, nothing is accepted, nothing panics
+            for _ in 0..2 {
+                fz.evals += 1;
+                let c: &'static Class = &CLASSES[r.below(CLASSES.len() as u64) as usize];
+                let Some(x) = malform(&o, c.name, r) else { continue };
+                *fz.classes.entry(c.name).or_insert(0) += 1;
+                let inp = || format!("{} honest-idx={} class={} => {}", lv(), li(&idx), c.name, x.describe());
+                let g = x.get_root();
+                let site = pred_check(fz, name, "get_root", &x, &g, &inp);
+                if !c.sites.contains(&site) { fz.fail("malformed-class-unexpected-site", name, inp, &format!("{:?}", c.sites), site.name().into()); }
+                match &g {
+                    Err(_) => fz.fail("panic-get_root", name, inp, "Err", short(&g)),
+                    Ok(Ok(y)) if real && *y == root => fz.fail("malformed-class-accepted", name, inp, "get_root: Err or another root", short(&g)),
+                    _ => {}
+                }
+                let g = x.verify_batch();
+                match &g {
+                    Err(_) => fz.fail("panic-verify_batch", name, inp, "Err", short(&g)),
+                    Ok(Ok(())) if real => fz.fail("malformed-class-accepted", name, inp, "verify_batch: Err", short(&g)),
+                    Ok(Ok(())) if site != Site::Accept => fz.fail("malformed-class-accepted", name, inp, "verify_batch: Err", short(&g)),
+                    _ => {}
+                }
+                let g = x.into_paths();
+                let site = pred_check(fz, name, "into_paths", &x, &g, &inp);
+                if !c.sites.contains(&site) { fz.fail("malformed-class-unexpected-site", name, inp, &format!("{:?}", c.sites), site.name().into()); }
+                match &g {
+                    Err(_) => fz.fail("panic-into_paths", name, inp, "Err", short(&g)),
+                    Ok(Ok(ps)) if real && ps.len() == x.idx.len() && ps.iter().zip(&x.idx).all(|(p, &i)| fold_path::<H>(i, p) == Some(root)) =>
+                        fz.fail("malformed-class-accepted", name, inp, "into_paths: Err or paths that do not resolve to the root", short(&g)),
                     _ => {}
                 }
             }
@@ -651,8 +1042,10 @@ fn falsify_hasher<H: Hasher>(name: &str, real: bool, budget: usize, r: &mut Rng,
                 };
                 let inp = || format!("garbage {}", x.describe());
                 let g = x.get_root(); if g.is_err() { fz.fail("panic-get_root", name, inp, "no panic", short(&g)); }
+                pred_check(fz, name, "get_root", &x, &g, &inp);
                 let g = x.verify_batch(); if g.is_err() { fz.fail("panic-verify_batch", name, inp, "no panic", short(&g)); }
                 let g = x.into_paths(); if g.is_err() { fz.fail("panic-into_paths", name, inp, "no panic", short(&g)); }
+                pred_check(fz, name, "into_paths", &x, &g, &inp);
                 let pl = r.below(71) as usize;
                 let path: Vec<H::Digest> = (0..pl).map(|_| rd(r)).collect();
                 let i = match r.below(4) { 0 => r.below(8) as usize, 1 => usize::MAX, 2 => 1usize.checked_shl(pl as u32).unwrap_or(0).wrapping_sub(1 + r.below(2) as usize) >> 1, _ => r.next_u64() as usize >> r.below(64) };
@@ -665,7 +1058,7 @@ fn falsify_hasher<H: Hasher>(name: &str, real: bool, budget: usize, r: &mut Rng,
 
 fn falsify(seed: u64, n: usize) {
     let r = &mut Rng::new(seed);
-    let fz = &mut Fz { evals: 0, fails: 0, suppressed: 0, seen: BTreeMap::new() };
+    let fz = &mut Fz { evals: 0, fails: 0, suppressed: 0, seen: BTreeMap::new(), sites: BTreeMap::new(), classes: BTreeMap::new() };
     // weights in 1/46ths: the Rescue hashers are ~20x slower
     let share = |w: usize| (n * w / 46).max(12);
     falsify_hasher::<Toy>("ToyHasher", false, share(10), r, fz);
@@ -676,6 +1069,10 @@ fn falsify(seed: u64, n: usize) {
     falsify_hasher::<RpJive64_256>("RpJive64_256", true, share(1), r, fz);
     falsify_hasher::<Rp62_248>("Rp62_248", true, share(1), r, fz);
     if fz.suppressed > 0 { eprintln!("suppressed {} repeated failures (more than 5 per what/hasher)", fz.suppressed); }
+    let sites: Vec<String> = fz.sites.iter().map(|(k, v)| format!("{}:{}={}", k.0, k.1, v)).collect();
+    eprintln!("falsifier guards answered (predicted = observed): {}", sites.join(" "));
+    let classes: Vec<String> = fz.classes.iter().map(|(k, v)| format!("{}={}", k, v)).collect();
+    eprintln!("falsifier malformed classes: {}", classes.join(" "));
     println!("evaluations={} failures={}", fz.evals, fz.fails);
 }
 
